@@ -1066,6 +1066,11 @@ void processFunction(Ctx& C, const FunctionDecl* FD, int parentId) {
         const Stmt* St = CS->getStmt();
         if (!interestingStmt(St))
           continue;
+        // an elidable copy/move construction is serialised as its operand, which already is an
+        // event of its own: do not emit it twice
+        if (auto* ECE = dyn_cast<CXXConstructExpr>(St))
+          if (ECE->isElidable() && ECE->getNumArgs() == 1)
+            continue;
         if (auto* RS = dyn_cast<ReturnStmt>(St)) {
           e["k"] = "return";
           e["sid"] = S.sidOf(RS);
